@@ -1095,3 +1095,56 @@ func phiLeaves(s string) []string {
 	out = append(out, inner[start:])
 	return out
 }
+
+// renderedCallsDeep: the calls of fn and of the helpers split off it (functions only called from
+// fn's cluster), each helper call site expanded with the helper's parameters replaced by the
+// rendered arguments and the caller's guards added.
+func (p *Program) renderedCallsDeep(fn *ssa.Function) []renderedCall {
+	return p.renderedCallsR(fn, &renderer{p: p, depth: 2}, nil, 0)
+}
+
+func (p *Program) renderedCallsR(fn *ssa.Function, r *renderer, outer []string, depth int) []renderedCall {
+	var out []renderedCall
+	F := FactsOf(fn)
+	for _, call := range callsIn(fn) {
+		var gs []string
+		for _, rl := range F.At(call.Block()).Rels() {
+			gs = append(gs, r.val(rl.x, 0)+" "+rl.op.String()+" "+r.val(rl.y, 0))
+		}
+		for f := range F.At(call.Block()) {
+			if _, ok := relsOf(f); !ok {
+				s := r.val(f.cond, 0)
+				if !f.truth {
+					s = "!" + s
+				}
+				gs = append(gs, s)
+			}
+		}
+		gs = append(gs, outer...)
+		sort.Strings(gs)
+		if g := call.Common().StaticCallee(); g != nil && depth < 2 && g != fn && p.InModule(g) && !p.inTestFile(g) && g.Parent() == nil && len(g.Blocks) > 0 && len(g.Params) == len(call.Common().Args) && isPrivateToFn(p, g, fn) {
+			sub := &renderer{p: p, subst: map[*ssa.Parameter]string{}, depth: r.depth}
+			for i, prm := range g.Params {
+				sub.subst[prm] = r.val(call.Common().Args[i], 0)
+			}
+			out = append(out, p.renderedCallsR(g, sub, gs, depth+1)...)
+			continue
+		}
+		out = append(out, renderedCall{Call: call, Text: r.call(call.Common(), 0), Guards: gs})
+	}
+	return out
+}
+
+func isPrivateToFn(p *Program, h, fn *ssa.Function) bool {
+	n := 0
+	for _, cs := range p.CallSitesOf(h) {
+		if p.inTestFile(cs.Parent()) {
+			continue
+		}
+		n++
+		if cs.Parent() != fn {
+			return false
+		}
+	}
+	return n > 0
+}
